@@ -1,5 +1,9 @@
 // ---- prelude/inner.rs: the wrapped service as a contract (DESIGN §4.2) — ASSUMED Tower contract.
 pub enum Poll<T> { Ready(T), Pending }
+impl<T> Poll<T> {
+    pub fn is_pending(&self) -> (b: bool) ensures b == (*self is Pending) { match self { Poll::Pending => true, _ => false } }
+    pub fn is_ready(&self) -> (b: bool) ensures b == (*self is Ready) { match self { Poll::Ready(_) => true, _ => false } }
+}
 pub struct Waker { pub p: u8 }
 impl Waker { #[verifier::external_body] pub fn wake_by_ref(&self) { unimplemented!() } }
 pub struct Context { pub p: u8 }
